@@ -76,6 +76,7 @@ def parseOp? (tok : String) : Option (Op GRat) :=
   | ["bigHne"] => some .readBigHNoExt
   | ["Hkne", k] => do some (.readHkNoExt (← k.toNat?))
   | ["Hne"] => some .readHNoExt
+  | ["query"] => some .query
   | ["layout"] => some .readLayout
   | ["pl"] => some .readPL
   | ["bigW"] => some .readBigWView
